@@ -1,4 +1,5 @@
 import Comdex.Lemmas.Pool
+import Comdex.Lemmas.PoolKeeper
 /-!
 # C06 — Pool shares are fair: deposits and withdrawals cannot extract value from a pool
 
@@ -28,6 +29,26 @@ Property clause → theorem
      MISSING for the full clause: that those end points coincide with `minPrice`/`maxPrice` — they do so only
      up to the error of `approxSqrt`/`Quo`/`Mul` rounding, which is unbounded relative to 10^-18 at prices
      near 10^20 (see notes/C06.md).
+     Under swaps (`RangedPool.SetBalances`): with the translation kept (`derive = false`)
+     `ranged_price_within_endpoints_fixed_translation` (every reserve pair of the box [0,X]×[0,Y] prices between the
+     two ends of the pool's own curve) and `ranged_price_monotone_fixed_translation`; with `derive = true`
+     `rederive_is_fresh_pool` (= `NewRangedPool` on the new reserves, history forgotten),
+     `rederive_same_iff_translation_fixpoint` (end points unchanged iff the translation is a fixed point of
+     `DeriveTranslation`) and `rederive_moves_endpoint_counterexample` (it is not: the D15 mechanism).
+
+The KEEPER level (`Model/PoolKeeper.lean`: `Keeper.ExecuteDepositRequest` / `ExecuteWithdrawRequest` / `Finish…Request`,
+the end-block batch `ExecuteRequests`, `MsgDepositAndFarm`, `MsgUnfarmAndWithdraw`; basic and ranged pools) — every
+clause lifted to every execution of a request on the pool's bank balances, bank supply and the app's WithdrawFeeRate:
+* tie keeper → arithmetic                         → `keeper_deposit_moves_amm_result`, `keeper_withdraw_moves_amm_result`
+* "never takes more than offered" (+ refund exact, failed request refunded in full) → `keeper_deposit_takes_at_most_offered`
+* "rate no better than reserves per share"        → `keeper_deposit_rate_not_better`
+* "at most pro rata reduced by the fee"           → `keeper_withdraw_at_most_prorata_minus_fee`
+* "last shares return the entire reserves" (+ burns the supply, disables the pool) → `keeper_last_share_gets_all`
+* "reserves per share never decrease" over ANY history of executed requests (failed / aborted ones and donations
+  included), `(1−10^-17)^k` for `k` deposits   → `keeper_reserves_per_share_nondecreasing` (step: `keeper_step`);
+  per pool of a whole batch                      → `keeper_batch_reserves_per_share`
+* no request gets stuck on a basic pool           → `keeper_exec_total`
+* in-transaction paths execute exactly their own request → `keeper_deposit_and_farm`, `keeper_unfarm_and_withdraw`
 -/
 namespace Comdex.C06
 open Comdex Comdex.Pool
@@ -244,6 +265,540 @@ example : WithdrawDom 1000 2000 10 3 3000000000000000 ∧ (3:Int) ≠ 10 ∧
   set_option exponentiation.threshold 512 in decide
 example : withdraw 1000 2000 10 10 3000000000000000 = some (1000, 2000) := last_share_gets_all _ _ _ _
 
+/-! ## The keeper level: every execution of a deposit / withdraw request (`Model/PoolKeeper.lean`)
+
+`execDeposit` / `execWithdraw` model `Keeper.ExecuteDepositRequest` / `ExecuteWithdrawRequest` (+ `Finish…Request`):
+which values reach the pool arithmetic (the pool's own reserve balances and pool-coin supply, the request's own
+coins, the app's `WithdrawFeeRate`) and what is then transferred, minted, burnt, refunded.  The clauses above are
+lifted to every execution, from the end-block batch (`execRequests`) or inside `MsgDepositAndFarm` /
+`MsgUnfarmAndWithdraw`, on basic and ranged pools. -/
+section Keeper
+open Comdex.PoolKeeper
+
+/-- The checked tie of the keeper's deposit path: a successful execution moved EXACTLY what `amm.Deposit` returned
+for the pool's own reserves and supply and the request's own coins, and minted a positive amount. -/
+theorem keeper_deposit_moves_amm_result {p : KPool} {x y : Int} {o : DepOut}
+    (h : execDeposit p x y = some o) (hs : o.status = .succeeded) :
+    p.disabled = false ∧ deposit p.rx p.ry p.ps x y = some (o.ax, o.ay, o.mint) ∧ 0 < o.mint ∧
+    o.rfx = x - o.ax ∧ o.rfy = y - o.ay ∧ o.disable = false := by
+  rcases execDeposit_cases h with ⟨dis, e, _⟩ | ⟨hd, _, ax, ay, pc, hdp, hpc, _, _, _, _, e⟩
+  · rw [e] at hs; cases hs
+  · subst e; exact ⟨hd, hdp, hpc, rfl, rfl, rfl⟩
+
+/-- all laws of one deposit execution (used by the named clauses below) -/
+theorem keeper_deposit_laws {p : KPool} {x y : Int} {o : DepOut} (hp : KInv p) (hx : 0 ≤ x) (hy : 0 ≤ y)
+    (h : execDeposit p x y = some o) :
+    DepConserves x y o ∧ DepFailedClean o ∧ RateNotBetter p.rx p.ps o.ax o.mint ∧ RateNotBetter p.ry p.ps o.ay o.mint ∧
+    PerShareAfterDeposit p.rx p.ps o.ax o.mint ∧ PerShareAfterDeposit p.ry p.ps o.ay o.mint := by
+  obtain ⟨hrx, hry, hps⟩ := hp
+  have hP : (0:Int) ≤ Dec.P + 2 := by decide
+  rcases execDeposit_cases h with ⟨dis, e, _⟩ | ⟨hd, hdep, ax, ay, pc, hdp, hpc, hax, hay, hxa, hya, e⟩
+  · subst e
+    have a := Int.mul_nonneg (Int.mul_nonneg hrx hps) hP
+    have b := Int.mul_nonneg (Int.mul_nonneg hry hps) hP
+    have c := Int.mul_nonneg hrx hps
+    have d := Int.mul_nonneg hry hps
+    refine ⟨⟨by simp [depFail], by simp [depFail], ⟨Int.le_refl 0, hx⟩, ⟨Int.le_refl 0, hy⟩, Int.le_refl 0⟩,
+      fun _ => ⟨rfl, rfl, rfl⟩, ?_, ?_, ?_, ?_⟩
+    · show 2 * Dec.PP * (0 * p.rx) ≤ 2 * Dec.PP * (0 * p.ps) + p.rx * p.ps * (Dec.P + 2); omega
+    · show 2 * Dec.PP * (0 * p.ry) ≤ 2 * Dec.PP * (0 * p.ps) + p.ry * p.ps * (Dec.P + 2); omega
+    · show (100000000000000000 - 1) * (p.rx * (p.ps + 0)) ≤ 100000000000000000 * ((p.rx + 0) * p.ps)
+      simp only [Int.add_zero]; omega
+    · show (100000000000000000 - 1) * (p.ry * (p.ps + 0)) ≤ 100000000000000000 * ((p.ry + 0) * p.ps)
+      simp only [Int.add_zero]; omega
+  · subst e
+    obtain ⟨hps0, hr, _⟩ := isDepleted_false hdep
+    have hdom : DepositDom p.rx p.ry p.ps x y := ⟨hrx, hry, by omega, by omega, hx, hy⟩
+    obtain ⟨r1, r2⟩ := deposit_rate_not_better hdom hdp
+    obtain ⟨s1, s2⟩ := reserves_per_share_nondecreasing_deposit hdom hdp
+    exact ⟨⟨by show ax + (x - ax) = x; omega, by show ay + (y - ay) = y; omega, ⟨hax, hxa⟩, ⟨hay, hya⟩, Int.le_of_lt hpc⟩,
+      (fun e => by cases e), r1, r2, s1, s2⟩
+
+/-- **Keeper level: a deposit never takes more of either coin than was offered** — every coin of the request is
+either accepted into the reserve (`0 ≤ accepted ≤ offered`) or refunded (`accepted + refund = offered`), and a failed
+request is refunded in full with nothing minted.  For every execution, batch or in-transaction, basic or ranged. -/
+theorem keeper_deposit_takes_at_most_offered {p : KPool} {x y : Int} {o : DepOut} (hp : KInv p) (hx : 0 ≤ x)
+    (hy : 0 ≤ y) (h : execDeposit p x y = some o) :
+    (o.ax + o.rfx = x ∧ o.ay + o.rfy = y) ∧ (0 ≤ o.ax ∧ o.ax ≤ x) ∧ (0 ≤ o.ay ∧ o.ay ≤ y) ∧ 0 ≤ o.mint ∧
+    (o.status = .failed → o.ax = 0 ∧ o.ay = 0 ∧ o.mint = 0) :=
+  let ⟨⟨a, b, c, d, e⟩, f, _⟩ := keeper_deposit_laws hp hx hy h; ⟨⟨a, b⟩, c, d, e, f⟩
+
+/-- **Keeper level: pool coins are minted at a rate no better than the reserves per share** of the pool's bank
+balances and bank supply at the moment of execution (bound of `deposit_rate_not_better`). -/
+theorem keeper_deposit_rate_not_better {p : KPool} {x y : Int} {o : DepOut} (hp : KInv p) (hx : 0 ≤ x)
+    (hy : 0 ≤ y) (h : execDeposit p x y = some o) :
+    2 * Dec.PP * (o.mint * p.rx) ≤ 2 * Dec.PP * (o.ax * p.ps) + p.rx * p.ps * (Dec.P + 2) ∧
+    2 * Dec.PP * (o.mint * p.ry) ≤ 2 * Dec.PP * (o.ay * p.ps) + p.ry * p.ps * (Dec.P + 2) :=
+  let ⟨_, _, a, b, _⟩ := keeper_deposit_laws hp hx hy h; ⟨a, b⟩
+
+/-- the checked tie of the withdraw path: a successful execution paid out EXACTLY `amm.Withdraw(reserves, supply,
+requested pool coin, the app's WithdrawFeeRate)` and burnt exactly the requested pool coin -/
+theorem keeper_withdraw_moves_amm_result {fee : Dec} {p : KPool} {pc : Int} {o : WdrOut}
+    (h : execWithdraw fee p pc = some o) (hs : o.status = .succeeded) :
+    p.disabled = false ∧ withdraw p.rx p.ry p.ps pc fee = some (o.x, o.y) ∧ o.burn = pc ∧ o.rfpc = 0 ∧
+    o.disable = decide (pc = p.ps) := by
+  rcases execWithdraw_cases h with ⟨dis, e, _⟩ | ⟨hd, _, x, y, hw, _, _, _, _, _, e⟩
+  · rw [e] at hs; cases hs
+  · subst e; exact ⟨hd, hw, rfl, rfl, rfl⟩
+
+/-- **Keeper level: a withdrawal (of less than the whole supply) never pays out more than the pro-rata part of the
+reserve balances reduced by the app's withdraw fee**: `x·ps·10^18 ≤ rx·pc·(10^18 − WithdrawFeeRate)`, same for `y`;
+the pool coin is either burnt (success) or refunded (failure: nothing is paid). For every execution. -/
+theorem keeper_withdraw_at_most_prorata_minus_fee {fee : Dec} {p : KPool} {pc : Int} {o : WdrOut} (hp : KInv p)
+    (hpc : 0 ≤ pc) (hle : pc ≤ p.ps) (hf0 : 0 ≤ fee) (hf1 : fee ≤ Dec.one) (hne : pc ≠ p.ps)
+    (h : execWithdraw fee p pc = some o) :
+    (0 ≤ o.x ∧ o.x * p.ps * Dec.P ≤ p.rx * pc * (Dec.P - fee)) ∧
+    (0 ≤ o.y ∧ o.y * p.ps * Dec.P ≤ p.ry * pc * (Dec.P - fee)) ∧
+    o.burn + o.rfpc = pc ∧ (o.status = .failed → o.x = 0 ∧ o.y = 0 ∧ o.burn = 0) ∧ (o.status = .succeeded → o.burn = pc) := by
+  obtain ⟨hrx, hry, hps⟩ := hp
+  have hm : (0:Int) ≤ Dec.P - fee := Int.sub_nonneg_of_le hf1
+  rcases execWithdraw_cases h with ⟨dis, e, _⟩ | ⟨hd, hdep, x, y, hw, _, _, _, _, _, e⟩
+  · subst e
+    have a := Int.mul_nonneg (Int.mul_nonneg hrx hpc) hm
+    have b := Int.mul_nonneg (Int.mul_nonneg hry hpc) hm
+    refine ⟨⟨Int.le_refl 0, ?_⟩, ⟨Int.le_refl 0, ?_⟩, (by simp [wdrFail]), (fun _ => ⟨rfl, rfl, rfl⟩), (fun e => by cases e)⟩
+    · show 0 * p.ps * Dec.P ≤ p.rx * pc * (Dec.P - fee); omega
+    · show 0 * p.ps * Dec.P ≤ p.ry * pc * (Dec.P - fee); omega
+  · subst e
+    obtain ⟨hps0, _, _⟩ := isDepleted_false hdep
+    have hdom : WithdrawDom p.rx p.ry p.ps pc fee := ⟨hrx, hry, by omega, hpc, hle, hf0, hf1⟩
+    obtain ⟨a, b⟩ := withdraw_at_most_prorata hdom hne hw
+    exact ⟨a, b, (by show pc + 0 = pc; omega), (fun e => by cases e), fun _ => rfl⟩
+
+/-- **Keeper level: redeeming the last outstanding pool coins pays out the entire reserve balances**, burns the whole
+supply and disables the pool (whatever the fee rate). -/
+theorem keeper_last_share_gets_all {fee : Dec} {p : KPool} (hp : KInv p) (hd : p.disabled = false)
+    (hdep : isDepleted p = some false) :
+    execWithdraw fee p p.ps =
+      some { status := .succeeded, x := p.rx, y := p.ry, burn := p.ps, rfpc := 0, disable := true } ∧
+    ∀ o, execWithdraw fee p p.ps = some o →
+      (applyWdr p o).rx = 0 ∧ (applyWdr p o).ry = 0 ∧ (applyWdr p o).ps = 0 ∧ (applyWdr p o).disabled = true := by
+  obtain ⟨hrx, hry, _⟩ := hp
+  obtain ⟨_, hr, _⟩ := isDepleted_false hdep
+  have e : execWithdraw fee p p.ps =
+      some { status := .succeeded, x := p.rx, y := p.ry, burn := p.ps, rfpc := 0, disable := true } := by
+    unfold execWithdraw
+    rw [hd, hdep, last_share_gets_all]
+    have h1 : ¬ (p.rx = 0 ∧ p.ry = 0) := by omega
+    have h2 : ¬ (p.rx < 0 ∨ p.ry < 0) := by omega
+    have h3 : ¬ (p.rx < p.rx ∨ p.ry < p.ry) := by omega
+    simp [h1, h2]
+  refine ⟨e, fun o ho => ?_⟩
+  rw [e] at ho
+  have := Option.some.inj ho
+  subst this
+  simp [applyWdr]
+
+/-- all laws of one withdraw execution in terms of the pool before and after -/
+theorem keeper_withdraw_per_share {fee : Dec} {p : KPool} {pc : Int} {o : WdrOut} (hp : KInv p)
+    (hpc : 0 ≤ pc) (hle : pc ≤ p.ps) (hf0 : 0 ≤ fee) (hf1 : fee ≤ Dec.one) (h : execWithdraw fee p pc = some o) :
+    PerShareAfterWithdraw p.rx p.ps o.burn o.x ∧ PerShareAfterWithdraw p.ry p.ps o.burn o.y ∧
+    0 ≤ o.x ∧ o.x ≤ p.rx ∧ 0 ≤ o.y ∧ o.y ≤ p.ry ∧ 0 ≤ o.burn ∧ o.burn ≤ p.ps := by
+  obtain ⟨hrx, hry, hps⟩ := hp
+  rcases execWithdraw_cases h with ⟨dis, e, _⟩ | ⟨hd, hdep, x, y, hw, _, hx0, hy0, _, _, e⟩
+  · subst e
+    refine ⟨?_, ?_, Int.le_refl 0, hrx, Int.le_refl 0, hry, Int.le_refl 0, hps⟩
+    · show p.rx * (p.ps - 0) ≤ (p.rx - 0) * p.ps; simp
+    · show p.ry * (p.ps - 0) ≤ (p.ry - 0) * p.ps; simp
+  · subst e
+    obtain ⟨hps0, _, _⟩ := isDepleted_false hdep
+    have hdom : WithdrawDom p.rx p.ry p.ps pc fee := ⟨hrx, hry, by omega, hpc, hle, hf0, hf1⟩
+    obtain ⟨a, b, c, d⟩ := reserves_per_share_nondecreasing_withdraw hdom hw
+    exact ⟨a, b, hx0, c, hy0, d, hpc, hle⟩
+
+/-- **No execution gets stuck on a basic pool**: with non-negative balances, a non-negative offer / a request of at
+most the supply and a fee rate in [0,1], `ExecuteDepositRequest` and `ExecuteWithdrawRequest` return normally whenever
+the pool object can be built (always for a basic pool; for a ranged pool unless `DeriveTranslation` panics). -/
+theorem keeper_exec_total {fee : Dec} {p : KPool} {x y pc : Int} (hp : KInv p) (hx : 0 ≤ x) (hy : 0 ≤ y)
+    (hpc : 0 ≤ pc) (hle : pc ≤ p.ps) (hf0 : 0 ≤ fee) (hf1 : fee ≤ Dec.one) (hb : isDepleted p ≠ none) :
+    (∃ o, execDeposit p x y = some o) ∧ (∃ o, execWithdraw fee p pc = some o) := by
+  obtain ⟨hrx, hry, hps⟩ := hp
+  constructor
+  · unfold execDeposit
+    split
+    · exact ⟨_, rfl⟩
+    · split
+      · rename_i hn; exact absurd hn hb
+      · exact ⟨_, rfl⟩
+      · rename_i hdep
+        obtain ⟨hps0, hr, _⟩ := isDepleted_false hdep
+        have hdom : DepositDom p.rx p.ry p.ps x y := ⟨hrx, hry, by omega, by omega, hx, hy⟩
+        obtain ⟨⟨ax, ay, m⟩, hd⟩ := deposit_total hdom
+        obtain ⟨⟨a1, a2⟩, ⟨b1, b2⟩, c⟩ := deposit_takes_at_most_offered hdom hd
+        rw [hd]
+        simp only
+        split
+        · exact ⟨_, rfl⟩
+        · split
+          · rename_i hneg; omega
+          · split
+            · rename_i hgt; omega
+            · exact ⟨_, rfl⟩
+  · unfold execWithdraw
+    split
+    · exact ⟨_, rfl⟩
+    · split
+      · rename_i hn; exact absurd hn hb
+      · exact ⟨_, rfl⟩
+      · rename_i hdep
+        obtain ⟨hps0, _, _⟩ := isDepleted_false hdep
+        have hdom : WithdrawDom p.rx p.ry p.ps pc fee := ⟨hrx, hry, by omega, hpc, hle, hf0, hf1⟩
+        obtain ⟨⟨wx, wy⟩, hw⟩ := withdraw_total (rx := p.rx) (ry := p.ry) (pc := pc) (fee := fee) hps0
+        obtain ⟨_, _, c, d⟩ := reserves_per_share_nondecreasing_withdraw hdom hw
+        have nn : 0 ≤ wx ∧ 0 ≤ wy := by
+          by_cases hne : pc = p.ps
+          · rw [hne, last_share_gets_all] at hw
+            have := Option.some.inj hw
+            have e1 : p.rx = wx := congrArg (·.1) this
+            have e2 : p.ry = wy := congrArg (·.2) this
+            omega
+          · obtain ⟨⟨a, _⟩, ⟨b, _⟩⟩ := withdraw_at_most_prorata hdom hne hw
+            exact ⟨a, b⟩
+        rw [hw]
+        simp only
+        split
+        · exact ⟨_, rfl⟩
+        · split
+          · rename_i hneg; omega
+          · split
+            · rename_i hgt; omega
+            · exact ⟨_, rfl⟩
+
+/-- … in particular on every BASIC pool (its `AMMPool` constructor cannot fail). -/
+theorem keeper_exec_total_basic {fee : Dec} {p : KPool} {x y pc : Int} (hb : p.ranged = false) (hp : KInv p)
+    (hx : 0 ≤ x) (hy : 0 ≤ y) (hpc : 0 ≤ pc) (hle : pc ≤ p.ps) (hf0 : 0 ≤ fee) (hf1 : fee ≤ Dec.one) :
+    (∃ o, execDeposit p x y = some o) ∧ (∃ o, execWithdraw fee p pc = some o) := by
+  obtain ⟨b, e⟩ := isDepleted_basic_some hb
+  exact keeper_exec_total hp hx hy hpc hle hf0 hf1 (by rw [e]; simp)
+
+/-! ### Any sequence of executed requests on one pool -/
+
+/-- the side conditions of one operation on the pool as it is then: offers / donations are non-negative, the pool
+coin of a withdraw request (held in escrow) is part of the supply -/
+def opOk (p : KPool) : Op → Prop
+  | .dep x y => 0 ≤ x ∧ 0 ≤ y
+  | .wdr pc => 0 ≤ pc ∧ pc ≤ p.ps
+  | .donate dx dy => 0 ≤ dx ∧ 0 ≤ dy
+
+instance (p : KPool) (o : Op) : Decidable (opOk p o) := by
+  cases o <;> unfold opOk <;> infer_instance
+
+def opsOk (fee : Dec) (p : KPool) : List Op → Prop
+  | [] => True
+  | o :: os => opOk p o ∧ opsOk fee (stepOrStay fee p o) os
+
+/-- one step: balances and supply stay non-negative, a zero supply stays zero, and reserves per share do not
+decrease (a deposit may cost the factor `1 - 10^-17`). -/
+theorem keeper_step {fee : Dec} {p : KPool} {op : Op} (hp : KInv p) (hf0 : 0 ≤ fee) (hf1 : fee ≤ Dec.one)
+    (hok : opOk p op) :
+    KInv (stepOrStay fee p op) ∧ (p.ps = 0 → (stepOrStay fee p op).ps = 0) ∧
+    PerShareGe (depOps [op]) p (stepOrStay fee p op) := by
+  obtain ⟨hrx, hry, hps⟩ := hp
+  cases op with
+  | dep x y =>
+    obtain ⟨hx, hy⟩ := hok
+    cases hd : execDeposit p x y with
+    | none =>
+      have e : stepOrStay fee p (.dep x y) = p := by simp [stepOrStay, stepOp, hd]
+      rw [e]
+      exact ⟨⟨hrx, hry, hps⟩, fun h => h, perShareGe_refl _ ⟨hrx, hry, hps⟩⟩
+    | some o =>
+      have e : stepOrStay fee p (.dep x y) = applyDep p o := by simp [stepOrStay, stepOp, hd]
+      rw [e]
+      obtain ⟨⟨_, _, ⟨a0, _⟩, ⟨b0, _⟩, m0⟩, fc, _, _, s1, s2⟩ := keeper_deposit_laws ⟨hrx, hry, hps⟩ hx hy hd
+      refine ⟨⟨by show 0 ≤ p.rx + o.ax; omega, by show 0 ≤ p.ry + o.ay; omega, by show 0 ≤ p.ps + o.mint; omega⟩, ?_, ?_⟩
+      · intro hz
+        show p.ps + o.mint = 0
+        rcases execDeposit_cases hd with ⟨dis, e, _⟩ | ⟨_, hdep, _⟩
+        · subst e; simp [depFail, hz]
+        · exact absurd hz (isDepleted_false hdep).1
+      · show PerShareGe 1 p (applyDep p o)
+        unfold PerShareGe
+        simp only [pow_one]
+        exact ⟨s1, s2⟩
+  | wdr pc =>
+    obtain ⟨hpc, hle⟩ := hok
+    cases hd : execWithdraw fee p pc with
+    | none =>
+      have e : stepOrStay fee p (.wdr pc) = p := by simp [stepOrStay, stepOp, hd]
+      rw [e]
+      exact ⟨⟨hrx, hry, hps⟩, fun h => h, perShareGe_refl _ ⟨hrx, hry, hps⟩⟩
+    | some o =>
+      have e : stepOrStay fee p (.wdr pc) = applyWdr p o := by simp [stepOrStay, stepOp, hd]
+      rw [e]
+      obtain ⟨s1, s2, x0, x1, y0, y1, b0, b1⟩ := keeper_withdraw_per_share ⟨hrx, hry, hps⟩ hpc hle hf0 hf1 hd
+      refine ⟨⟨by show 0 ≤ p.rx - o.x; omega, by show 0 ≤ p.ry - o.y; omega, by show 0 ≤ p.ps - o.burn; omega⟩, ?_, ?_⟩
+      · intro hz; show p.ps - o.burn = 0; omega
+      · show PerShareGe 0 p (applyWdr p o)
+        unfold PerShareGe
+        simp only [pow_zero, Int.one_mul]
+        exact ⟨s1, s2⟩
+  | donate dx dy =>
+    obtain ⟨hx, hy⟩ := hok
+    have e : stepOrStay fee p (.donate dx dy) = { p with rx := p.rx + dx, ry := p.ry + dy } := by
+      simp [stepOrStay, stepOp]
+    rw [e]
+    refine ⟨⟨by show 0 ≤ p.rx + dx; omega, by show 0 ≤ p.ry + dy; omega, hps⟩, fun h => h, ?_⟩
+    show PerShareGe 0 p { p with rx := p.rx + dx, ry := p.ry + dy }
+    unfold PerShareGe
+    simp only [pow_zero, Int.one_mul]
+    exact ⟨Int.mul_le_mul_of_nonneg_right (by omega) hps, Int.mul_le_mul_of_nonneg_right (by omega) hps⟩
+
+/-- **Keeper level: reserves per outstanding share never decrease over ANY sequence of executed deposit and
+withdraw requests (and donations to the reserve address)** on a pool — basic or ranged, from the batch or inside a
+transaction, including failed and aborted executions: after a history with `k` deposit requests
+`(1 − 10^-17)^k · r₀/ps₀ ≤ rₙ/psₙ` for both coins (cross-multiplied), balances and supply stay non-negative. -/
+theorem keeper_reserves_per_share_nondecreasing {fee : Dec} (hf0 : 0 ≤ fee) (hf1 : fee ≤ Dec.one) :
+    ∀ (ops : List Op) (p : KPool), KInv p → opsOk fee p ops →
+      KInv (runOps fee p ops) ∧ (p.ps = 0 → (runOps fee p ops).ps = 0) ∧
+      PerShareGe (depOps ops) p (runOps fee p ops) := by
+  intro ops
+  induction ops with
+  | nil => intro p hp _; exact ⟨hp, fun h => h, perShareGe_refl _ hp⟩
+  | cons op os ih =>
+    intro p hp hok
+    obtain ⟨h1, h2⟩ := hok
+    obtain ⟨kq, zq, sq⟩ := keeper_step hp hf0 hf1 h1
+    obtain ⟨kr, zr, sr⟩ := ih _ kq h2
+    refine ⟨kr, fun h => zr (zq h), ?_⟩
+    have e : depOps (op :: os) = depOps [op] + depOps os := by
+      cases op <;> simp [depOps]
+      omega
+    rw [e]
+    exact perShareGe_trans hp kq kr sq sr zr
+
+/-! ### The end-block batch: each pool sees exactly its own requests, in order -/
+
+theorem runOps_append (fee : Dec) (p : KPool) (a b : List Op) :
+    runOps fee p (a ++ b) = runOps fee (runOps fee p a) b := by
+  induction a generalizing p with
+  | nil => rfl
+  | cons o os ih => exact ih _
+
+/-- the deposit loop, seen from pool `id`: the pool ends in the state reached by executing exactly the requests
+addressed to it, in store order; requests of other pools do not touch it -/
+theorem batch_deposits_project {fee : Dec} :
+    ∀ (reqs : List DepReq) (pools pools' : List KPool) (outs : List DepOut) (id : Nat) (p : KPool),
+      runDeposits pools reqs = some (pools', outs) → findPool pools id = some p →
+      findPool pools' id =
+        some (runOps fee p (((reqs.filter (fun r => r.pool = id)).map (fun r => Op.dep r.x r.y)))) := by
+  intro reqs
+  induction reqs with
+  | nil =>
+    intro pools pools' outs id p h hf
+    have := Option.some.inj h
+    have e : pools = pools' := congrArg (·.1) this
+    subst e; simpa [runOps] using hf
+  | cons r rs ih =>
+    intro pools pools' outs id p h hf
+    unfold runDeposits at h
+    split at h
+    · cases h
+    · rename_i q hq
+      split at h
+      · cases h
+      · rename_i o ho
+        split at h
+        · cases h
+        · rename_i ps2 os hrest
+          have e1 : ps2 = pools' := congrArg (·.1) (Option.some.inj h)
+          subst e1
+          have hqid := findPool_id hq
+          by_cases hid : r.pool = id
+          · have hqp : q = p := by rw [hid, hf] at hq; exact (Option.some.inj hq).symm
+            subst hqp
+            have hf2 : findPool (setPool pools (applyDep q o)) id = some (applyDep q o) := by
+              have : (applyDep q o).id = id := by show q.id = id; omega
+              rw [← this]
+              exact findPool_setPool_eq (p := q) (by rw [this]; exact hf)
+            have := ih _ _ _ id _ hrest hf2
+            rw [this]
+            simp [hid, runOps, stepOrStay, stepOp, ho]
+          · have hf2 : findPool (setPool pools (applyDep q o)) id = some p := by
+              rw [findPool_setPool_ne (by show id ≠ q.id; omega)]; exact hf
+            have := ih _ _ _ id _ hrest hf2
+            rw [this]
+            simp [hid]
+
+theorem batch_withdraws_project {fee : Dec} :
+    ∀ (reqs : List WdrReq) (pools pools' : List KPool) (outs : List WdrOut) (id : Nat) (p : KPool),
+      runWithdraws fee pools reqs = some (pools', outs) → findPool pools id = some p →
+      findPool pools' id =
+        some (runOps fee p (((reqs.filter (fun r => r.pool = id)).map (fun r => Op.wdr r.pc)))) := by
+  intro reqs
+  induction reqs with
+  | nil =>
+    intro pools pools' outs id p h hf
+    have := Option.some.inj h
+    have e : pools = pools' := congrArg (·.1) this
+    subst e; simpa [runOps] using hf
+  | cons r rs ih =>
+    intro pools pools' outs id p h hf
+    unfold runWithdraws at h
+    split at h
+    · cases h
+    · rename_i q hq
+      split at h
+      · cases h
+      · rename_i o ho
+        split at h
+        · cases h
+        · rename_i ps2 os hrest
+          have e1 : ps2 = pools' := congrArg (·.1) (Option.some.inj h)
+          subst e1
+          have hqid := findPool_id hq
+          by_cases hid : r.pool = id
+          · have hqp : q = p := by rw [hid, hf] at hq; exact (Option.some.inj hq).symm
+            subst hqp
+            have hf2 : findPool (setPool pools (applyWdr q o)) id = some (applyWdr q o) := by
+              have : (applyWdr q o).id = id := by show q.id = id; omega
+              rw [← this]
+              exact findPool_setPool_eq (p := q) (by rw [this]; exact hf)
+            have := ih _ _ _ id _ hrest hf2
+            rw [this]
+            simp [hid, runOps, stepOrStay, stepOp, ho]
+          · have hf2 : findPool (setPool pools (applyWdr q o)) id = some p := by
+              rw [findPool_setPool_ne (by show id ≠ q.id; omega)]; exact hf
+            have := ih _ _ _ id _ hrest hf2
+            rw [this]
+            simp [hid]
+
+/-- the operations pool `id` undergoes in one batch: its deposit requests, then its withdraw requests -/
+def batchOps (id : Nat) (deps : List DepReq) (wdrs : List WdrReq) : List Op :=
+  ((deps.filter (fun r => r.pool = id)).map (fun r => Op.dep r.x r.y)) ++
+  ((wdrs.filter (fun r => r.pool = id)).map (fun r => Op.wdr r.pc))
+
+/-- **The end-block batch, pool by pool**: after `ExecuteRequests` every pool of the app is in the state reached by
+executing exactly its own pending deposit requests and then its own pending withdraw requests, in store order, each
+on the balances left by the previous one — hence (by `keeper_reserves_per_share_nondecreasing`) its reserves per
+share did not decrease, whatever the other pools' requests were. -/
+theorem keeper_batch_reserves_per_share {fee : Dec} (hf0 : 0 ≤ fee) (hf1 : fee ≤ Dec.one)
+    {pools pools' : List KPool} {deps : List DepReq} {wdrs : List WdrReq} {dos : List DepOut} {wos : List WdrOut}
+    {id : Nat} {p : KPool}
+    (h : execRequests fee pools deps wdrs = some (pools', dos, wos)) (hf : findPool pools id = some p)
+    (hp : KInv p) (hok : opsOk fee p (batchOps id deps wdrs)) :
+    ∃ q, findPool pools' id = some q ∧ q = runOps fee p (batchOps id deps wdrs) ∧ KInv q ∧
+      PerShareGe (depOps (batchOps id deps wdrs)) p q := by
+  unfold execRequests at h
+  split at h
+  · cases h
+  · rename_i p1 dos' hd
+    split at h
+    · cases h
+    · rename_i p2 wos' hw
+      have e : p2 = pools' := congrArg (·.1) (Option.some.inj h)
+      subst e
+      have f1 := batch_deposits_project (fee := fee) deps pools p1 dos' id p hd hf
+      have f2 := batch_withdraws_project (fee := fee) wdrs p1 p2 wos' id _ hw f1
+      obtain ⟨k, _, s⟩ := keeper_reserves_per_share_nondecreasing hf0 hf1 (batchOps id deps wdrs) p hp hok
+      refine ⟨_, f2, ?_, ?_, ?_⟩
+      · unfold batchOps; rw [runOps_append]
+      · unfold batchOps at k; rw [runOps_append] at k; exact k
+      · unfold batchOps at s ⊢; rw [runOps_append] at s; exact s
+
+/-! ### The in-transaction paths -/
+
+/-- `MsgDepositAndFarm`: the message succeeds only with a SUCCEEDED execution of its own deposit request on the
+pool's current balances; the pool moves by exactly that execution (so every deposit law above applies), all other
+pools are untouched; otherwise nothing changes at all. -/
+theorem keeper_deposit_and_farm {pools pools' : List KPool} {pool : Nat} {bx bY x y : Int} {o : DepOut}
+    (h : depositAndFarm pools pool bx bY x y = some (pools', o)) :
+    ∃ p, findPool pools pool = some p ∧ p.disabled = false ∧ execDeposit p x y = some o ∧ o.status = .succeeded ∧
+      0 < o.mint ∧ x ≤ bx ∧ y ≤ bY ∧ pools' = setPool pools (applyDep p o) := by
+  unfold depositAndFarm at h
+  split at h
+  · rename_i hok
+    split at h
+    · cases h
+    · rename_i p hp
+      split at h
+      · cases h
+      · rename_i o' ho
+        split at h
+        · rename_i hs
+          have e := Option.some.inj h
+          have e1 : setPool pools (applyDep p o') = pools' := congrArg (·.1) e
+          have e2 : o' = o := congrArg (·.2) e
+          subst e2
+          unfold msgDepositOk at hok
+          rw [hp] at hok
+          simp only [Bool.and_eq_true, Bool.not_eq_true', decide_eq_true_eq] at hok
+          exact ⟨p, hp, hok.1.1.1.1, ho, hs.1, hs.2, hok.1.2, hok.2, e1.symm⟩
+        · cases h
+  · cases h
+
+/-- `MsgUnfarmAndWithdraw`: a message that goes through executed its own withdraw request of exactly the unfarmed
+amount (`0 < pc ≤ farmed`) on the pool's current balances with the app's fee rate (so every withdraw law above
+applies); a failed execution leaves pool and supply unchanged. -/
+theorem keeper_unfarm_and_withdraw {fee : Dec} {pools pools' : List KPool} {pool : Nat} {farmed pc : Int} {o : WdrOut}
+    (h : unfarmAndWithdraw fee pools pool farmed pc = some (pools', o)) :
+    ∃ p, findPool pools pool = some p ∧ p.disabled = false ∧ 0 < pc ∧ pc ≤ farmed ∧ execWithdraw fee p pc = some o ∧
+      pools' = setPool pools (applyWdr p o) := by
+  unfold unfarmAndWithdraw at h
+  split at h
+  · cases h
+  · rename_i p hp
+    split at h
+    · cases h
+    · rename_i hg
+      split at h
+      · cases h
+      · rename_i o' ho
+        have e := Option.some.inj h
+        have e1 : setPool pools (applyWdr p o') = pools' := congrArg (·.1) e
+        have e2 : o' = o := congrArg (·.2) e
+        subst e2
+        have hd : p.disabled = false := by
+          cases hpd : p.disabled with
+          | false => rfl
+          | true => exact absurd (Or.inr (Or.inr hpd)) hg
+        exact ⟨p, hp, hd, by omega, by omega, ho, e1.symm⟩
+
+/-! ### Non-vacuity of the keeper theorems: concrete executions inside the domains -/
+
+/-- a basic pool with reserves (1000000, 3000000), supply 2000 -/
+def exPool : KPool := { id := 1, ranged := false, minP := 0, maxP := 0, disabled := false, rx := 1000000, ry := 3000000, ps := 2000 }
+
+example : KInv exPool ∧ execDeposit exPool 500 1600 =
+    some { status := .succeeded, ax := 500, ay := 1500, mint := 1, rfx := 0, rfy := 100, disable := false } := by
+  set_option exponentiation.threshold 512 in decide
+example : execDeposit exPool 0 1600 = some (depFail 0 1600 false) := by
+  set_option exponentiation.threshold 512 in decide
+/-- fee 10 %: 300 of 2000 pool coins pay 135000 / 405000 (pro rata 150000 / 450000) -/
+example : execWithdraw 100000000000000000 exPool 300 =
+    some { status := .succeeded, x := 135000, y := 405000, burn := 300, rfpc := 0, disable := false } := by
+  set_option exponentiation.threshold 512 in decide
+example : isDepleted exPool = some false ∧ execWithdraw 100000000000000000 exPool 2000 =
+    some { status := .succeeded, x := 1000000, y := 3000000, burn := 2000, rfpc := 0, disable := true } := by
+  set_option exponentiation.threshold 512 in decide
+/-- a history: deposit, withdraw with fee, donation, last share; its side conditions hold -/
+example : opsOk 100000000000000000 exPool [.dep 500 1600, .wdr 300, .donate 7 0, .wdr 1701] ∧
+    runOps 100000000000000000 exPool [.dep 500 1600, .wdr 300, .donate 7 0, .wdr 1701] =
+      { exPool with rx := 0, ry := 0, ps := 0, disabled := true } := by
+  set_option exponentiation.threshold 512 in
+  refine ⟨⟨by decide, by decide, by decide, by decide, trivial⟩, by decide⟩
+/-- a batch over two pools: pool 2's request does not touch pool 1 -/
+example : (execRequests 100000000000000000 [exPool, { exPool with id := 2 }]
+      [⟨1, 1, 0, 500, 1600⟩, ⟨2, 1, 1, 1000, 3000⟩] [⟨1, 1, 0, 300⟩]).map (fun r => r.1.map (fun p => (p.id, p.rx, p.ry, p.ps)))
+    = some [(1, 865501, 2596501, 1701), (2, 1001000, 3003000, 2002)] := by
+  set_option exponentiation.threshold 512 in decide
+/-- in-transaction paths -/
+example : (depositAndFarm [exPool] 1 1000 2000 500 1600).map (fun r => r.2.mint) = some 1 := by
+  set_option exponentiation.threshold 512 in decide
+example : depositAndFarm [exPool] 1 1000 2000 0 1600 = none := by
+  set_option exponentiation.threshold 512 in decide
+example : (unfarmAndWithdraw 100000000000000000 [exPool] 1 400 300).map (fun r => (r.2.x, r.2.y)) = some (135000, 405000) := by
+  set_option exponentiation.threshold 512 in decide
+/-- a ranged pool at the lower edge of its range (only base coin): a deposit takes only the base coin -/
+def exRanged : KPool :=
+  { id := 3, ranged := true, minP := 1000000000000000000, maxP := 4000000000000000000, disabled := false,
+    rx := 0, ry := 1000000, ps := 1000 }
+example : execDeposit exRanged 777 5000 =
+    some { status := .succeeded, ax := 0, ay := 5000, mint := 5, rfx := 777, rfy := 0, disable := false } := by
+  set_option exponentiation.threshold 512 in decide
+
+end Keeper
+
 /-! ## Ranged pools -/
 
 /-- An accepted `CreateRangedPool` had an admissible price triple (what "admissible" means in the property),
@@ -314,6 +869,149 @@ theorem ranged_price_between_curve_endpoints_partial {rx ry ps : Int} {minP maxP
 /-- non-vacuity of the partial theorem: a real two-sided pool (reserves 10^12 / 10^12, range [1, 4]) -/
 example : (match newRangedPool 1000000000000 1000000000000 1000000000000 1000000000000000000 4000000000000000000 with
     | .ok p => decide (0 ≤ p.transX ∧ 0 < p.transY) && (match rangedPrice p with | .ok v => decide (PriceInRange p.minP p.maxP v) | _ => false)
+    | _ => false) = true := by
+  set_option exponentiation.threshold 512 in decide
+
+/-! ### Ranged pools under swaps: `SetBalances(rx, ry, derive)`
+
+Within one batch `PoolBuyOrders` / `PoolSellOrders` walk a clone of the pool through the ticks with
+`SetBalances(rx, ry, derive = false)`: the translation `(transX, transY)` is KEPT, only the reserves move.  With
+`derive = true` (the first catch-up order of a batch; and, through `NewRangedPool`, every construction of the pool
+object from the bank balances — i.e. every later block) the translation is recomputed from the new reserves. -/
+
+theorem setBalances_fixed_ok {p q : RPool} {rx ry : Int} (h : setBalances p rx ry false = .ok q) :
+    q.rx = rx ∧ q.ry = ry ∧ q.ps = p.ps ∧ q.minP = p.minP ∧ q.maxP = p.maxP ∧ q.transX = p.transX ∧ q.transY = p.transY ∧
+    q.xComp = Dec.add (toDec rx) p.transX ∧ q.yComp = Dec.add (toDec ry) p.transY := by
+  unfold setBalances at h
+  simp only [Bool.false_eq_true, if_false] at h
+  obtain ⟨⟨tx, ty⟩, h0, h⟩ := bind_ok h
+  have e0 := pure_ok h0
+  have e1 : p.transX = tx := congrArg (·.1) e0
+  have e2 : p.transY = ty := congrArg (·.2) e0
+  subst e1 e2
+  obtain ⟨xc, hx, h⟩ := bind_ok h
+  obtain ⟨yc, hy, h⟩ := bind_ok h
+  have e := pure_ok h
+  rw [← e]
+  exact ⟨rfl, rfl, rfl, rfl, rfl, rfl, rfl, chk_ok hx, chk_ok hy⟩
+
+/-- **With the translation kept, a ranged pool's price stays between the prices of the two ends of its own curve
+for EVERY reserve pair in the box the swaps can reach**: if the reserves stay within `0 ≤ rx ≤ X`, `0 ≤ ry ≤ Y`
+(`X`, `Y` the reserves of the all-quote / all-base end), then
+`transX/(Y + transY) ≤ price(rx, ry) ≤ (X + transX)/transY` (in `Dec` arithmetic, `Quo`'s roundings included).
+The two bounds are constants of the pool as long as `derive = false`. -/
+theorem ranged_price_within_endpoints_fixed_translation {p q : RPool} {rx ry X Y : Int} {v : Dec}
+    (htx : 0 ≤ p.transX) (hty : 0 < p.transY) (hrx : 0 ≤ rx) (hX : rx ≤ X) (hry : 0 ≤ ry) (hY : ry ≤ Y)
+    (hs : setBalances p rx ry false = .ok q) (hv : rangedPrice q = .ok v) :
+    Dec.quo p.transX (Dec.add (toDec Y) p.transY) ≤ v ∧ v ≤ Dec.quo (Dec.add (toDec X) p.transX) p.transY := by
+  obtain ⟨_, _, _, _, _, _, _, ex, ey⟩ := setBalances_fixed_ok hs
+  have hP := P_pos
+  have hv' : v = Dec.quo q.xComp q.yComp := by
+    unfold rangedPrice at hv
+    split at hv
+    · exact absurd hv (by simp)
+    · exact (quo_ok hv).2
+  rw [hv', ex, ey]
+  exact quo_box htx hty (Int.mul_nonneg hrx (Int.le_of_lt hP)) (Int.mul_le_mul_of_nonneg_right hX (Int.le_of_lt hP))
+    (Int.mul_nonneg hry (Int.le_of_lt hP)) (Int.mul_le_mul_of_nonneg_right hY (Int.le_of_lt hP))
+
+/-- with the translation kept the price moves WITH the swap: when the pool buys base coin (quote reserve down, base
+reserve up) its price does not rise, when it sells it does not fall -/
+theorem ranged_price_monotone_fixed_translation {p q q' : RPool} {rx ry rx' ry' : Int} {v v' : Dec}
+    (htx : 0 ≤ p.transX) (hty : 0 < p.transY) (hrx' : 0 ≤ rx') (hle : rx' ≤ rx) (hry : 0 ≤ ry) (hge : ry ≤ ry')
+    (hs : setBalances p rx ry false = .ok q) (hv : rangedPrice q = .ok v)
+    (hs' : setBalances p rx' ry' false = .ok q') (hv' : rangedPrice q' = .ok v') : v' ≤ v := by
+  obtain ⟨_, _, _, _, _, _, _, ex, ey⟩ := setBalances_fixed_ok hs
+  obtain ⟨_, _, _, _, _, _, _, ex', ey'⟩ := setBalances_fixed_ok hs'
+  have hP := P_pos
+  have pv : ∀ {r : RPool} {w : Dec}, rangedPrice r = .ok w → w = Dec.quo r.xComp r.yComp := by
+    intro r w h
+    unfold rangedPrice at h
+    split at h
+    · exact absurd h (by simp)
+    · exact (quo_ok h).2
+  rw [pv hv, pv hv', ex, ey, ex', ey']
+  exact quo_shift_mono htx hty (Int.mul_nonneg hrx' (Int.le_of_lt hP)) (Int.mul_le_mul_of_nonneg_right hle (Int.le_of_lt hP))
+    (Int.mul_nonneg hry (Int.le_of_lt hP)) (Int.mul_le_mul_of_nonneg_right hge (Int.le_of_lt hP))
+
+/-- **Re-derivation forgets the pool's history**: `SetBalances(rx, ry, derive = true)` yields exactly the pool
+`NewRangedPool(rx, ry, ps, minPrice, maxPrice)` builds from the reserves alone — whatever translation the pool had. So
+the price the chain sees in the next block is a function of `(rx, ry, minPrice, maxPrice)` only, and the price-range
+clause for chain states is the clause for `newRangedPool` on the reachable reserves (where D15's witnesses live). -/
+theorem rederive_is_fresh_pool (p : RPool) (rx ry : Int) :
+    setBalances p rx ry true = newRangedPool rx ry p.ps p.minP p.maxP := by
+  unfold setBalances newRangedPool
+  simp only [if_true]
+
+/-- **Exactly when re-derivation moves the curve (the D15 mechanism)**: at the same reserves, `derive = true` gives
+the same pool as `derive = false` — same translation, hence the same two end points — if and only if the kept
+translation is a FIXED POINT of `DeriveTranslation` at those reserves.  (`rederive_moves_endpoint_counterexample`: it
+is not, even for reserves on the pool's own curve.) -/
+theorem rederive_same_iff_translation_fixpoint {p q q' : RPool} {rx ry : Int}
+    (hf : setBalances p rx ry false = .ok q) (hd : setBalances p rx ry true = .ok q') :
+    q' = q ↔ deriveTranslation rx ry p.minP p.maxP = .ok (p.transX, p.transY) := by
+  obtain ⟨f1, f2, f3, f4, f5, f6, f7, f8, f9⟩ := setBalances_fixed_ok hf
+  unfold setBalances at hd
+  simp only [if_true] at hd
+  obtain ⟨⟨tx, ty⟩, h0, h⟩ := bind_ok hd
+  obtain ⟨xc, hx, h⟩ := bind_ok h
+  obtain ⟨yc, hy, h⟩ := bind_ok h
+  have e := pure_ok h
+  constructor
+  · intro heq
+    have t1 : q'.transX = tx := by rw [← e]
+    have t2 : q'.transY = ty := by rw [← e]
+    rw [h0]
+    rw [heq, f6] at t1
+    rw [heq, f7] at t2
+    rw [t1, t2]
+  · intro hfix
+    rw [hfix] at h0
+    have e0 := Except.ok.inj h0
+    have e1 : p.transX = tx := congrArg (·.1) e0
+    have e2 : p.transY = ty := congrArg (·.2) e0
+    subst e1 e2
+    have hxc := chk_ok hx
+    have hyc := chk_ok hy
+    rw [← e]
+    cases q
+    simp only [RPool.mk.injEq] at *
+    simp_all
+
+/-- price of a pool record, `none` when a step fails -/
+def priceOf (q : M RPool) : Option Dec :=
+  match q with
+  | .ok r => (match rangedPrice r with | .ok v => some v | .error _ => none)
+  | .error _ => none
+
+/-- **Re-derivation moves an end point (D15 mechanism, concrete).**  Range [3.2, 3.2032]; the pool built from reserves
+(1 000 000, 300 000) has price 3.2016….  Walk it along its OWN curve to the all-base end (0, 612 420) with the
+translation kept: price 3.200000000914… — inside the range.  Re-derive the translation at the very same reserves (what
+the next block does): price 3.199999999999999999 — below `minPrice`. -/
+theorem rederive_moves_endpoint_counterexample :
+    ∃ p0, newRangedPool 1000000 300000 1 3200000000000000000 3203200000000000000 = .ok p0 ∧
+      priceOf (setBalances p0 0 612420 false) = some 3200000000914497119 ∧
+      PriceInRange 3200000000000000000 3203200000000000000 3200000000914497119 ∧
+      priceOf (setBalances p0 0 612420 true) = some 3199999999999999999 ∧
+      ¬ PriceInRange 3200000000000000000 3203200000000000000 3199999999999999999 := by
+  set_option exponentiation.threshold 512 in
+  refine ⟨_, rfl, ?_, ?_, ?_, ?_⟩ <;> decide
+
+/-- non-vacuity of `ranged_price_monotone_fixed_translation`: the pool bought base coin (quote 1 000 000 → 500 000, base
+300 000 → 456 000), its price fell from 3.201631… to 3.200816… -/
+example : (match newRangedPool 1000000 300000 1 3200000000000000000 3203200000000000000 with
+    | .ok p => decide (priceOf (setBalances p 1000000 300000 false) = some 3201631849758840253) &&
+        decide (priceOf (setBalances p 500000 456000 false) = some 3200816369783903229)
+    | _ => false) = true := by
+  set_option exponentiation.threshold 512 in decide
+
+/-- non-vacuity: the fixed-translation theorems apply to that pool (translation positive), and the bounds of
+`ranged_price_within_endpoints_fixed_translation` for the box [0, 1960724] × [0, 612420] are its two end-point prices -/
+example : (match newRangedPool 1000000 300000 1 3200000000000000000 3203200000000000000 with
+    | .ok p => decide (0 ≤ p.transX ∧ 0 < p.transY) &&
+        (priceOf (setBalances p 500000 456000 false)).isSome &&
+        decide (Dec.quo p.transX (Dec.add (toDec 612420) p.transY) = 3200000000914497119) &&
+        decide (Dec.quo (Dec.add (toDec 1960724) p.transX) p.transY = 3203199999388915652)
     | _ => false) = true := by
   set_option exponentiation.threshold 512 in decide
 
